@@ -299,6 +299,8 @@ class Exec:
                 key = func.name + mp.group(0)
                 if key in ctx.const_cache:
                     return ctx.const_cache[key]
+        if ent is None and re.fullmatch(r"(?:\w+::)*[A-Z]\w*", name):
+            return ("opaque", name.split("::")[-1])          # a unit struct used as a value (zero-sized)
         if ent is None:
             raise ExecError("unknown constant: " + name)
         if isinstance(ent, tuple) and ent[0] == "constval":
